@@ -187,7 +187,11 @@ fn swap_alphabet(m: &VModel, w: &mut VWorld, s: &VSt, with_blk: bool) -> Vec<VAc
 }
 
 fn alpha_c01(m: &VModel, w: &mut VWorld, s: &VSt) -> Vec<VAct> {
-    let base = swap_alphabet(m, w, s, true);
+    let mut base = swap_alphabet(m, w, s, true);
+    // the owner pauses / re-opens the market and the engine settles funding between swaps: the curve's books (reserves,
+    // net position) are none of their business
+    base.push(VAct::SetOpen { open: !w.state().open });
+    base.push(VAct::Settle);
     // every swap also with a slippage limit exactly at, one unit inside and one unit past the quoted amount: whether
     // such a swap is accepted is C17's business, but an accepted one must still conserve the curve
     let mut acts = vec![];
@@ -226,6 +230,18 @@ fn step_c01(m: &VModel, w: &mut VWorld, s: &VSt, a: &VAct, out: &mut StepOut) ->
     let post = w.snapshot();
     let mut mon = s.mon.clone();
     if matches!(a, VAct::Blk { .. }) {
+        return Some(VSt { snap: post, mon });
+    }
+    if matches!(a, VAct::SetOpen { .. } | VAct::Settle) {
+        // not a swap: the reserves and the reported net position must be what they were
+        let st1 = w.state();
+        if st1.quote_asset_reserve.u128() != q0 || st1.base_asset_reserve.u128() != b0 || st1.total_position_size != st0.total_position_size {
+            out.viol(
+                "C01:curve-books-changed-outside-a-swap",
+                format!("{:?} (ok={}) changed (q, b, net position) from ({}, {}, {}) to ({}, {}, {})", a, o.ok, q0, b0, st0.total_position_size, st1.quote_asset_reserve, st1.base_asset_reserve, st1.total_position_size),
+            );
+        }
+        out.tag("c01:administrative-steps");
         return Some(VSt { snap: post, mon });
     }
     out.tag(format!("outcome:swap:{}", if o.ok { "ok" } else if o.panicked { "panic" } else { "err" }));
